@@ -47,7 +47,74 @@ def place(recipe):
     except Exception as ex:
         res.update(status='exception', error='%s: %s' % (type(ex).__name__, ex), traceback=traceback.format_exc()[-2500:]); return res
     res.update(status='ok', info=info, lay=D.dump_layout(s, conn))
+    try:
+        res['placer'] = placer_inputs(s)
+    except Exception as ex:
+        res['placer'] = {'error': '%s: %s' % (type(ex).__name__, ex)}
     return res
+
+
+def placer_inputs(s):
+    """what the last replaceAsColRow() of the real placer worked on and what it produced: the symbol grid with each symbol's getWidth()/getHeight(),
+    the track counts of the channels, the class constants, and the x/y every cell's symbol ended up with (input and output of Model/Placer.v `place`)"""
+    m = s.symbol_matrix
+    nr, nc = m.shape
+    cells, seen, twice = [], {}, False
+    for r in range(nr):
+        row = []
+        for c in range(nc):
+            sym = m[r, c]
+            if sym is None: row.append(None); continue
+            if id(sym) in seen: twice = True
+            seen[id(sym)] = 1
+            row.append((sym.getWidth(), sym.getHeight(), sym.x, sym.y))
+        cells.append(row)
+    chans = [(d.get('feedback_tracks', 0), d['tracks']) for d in s.channels]
+    S = type(s)
+    cfg = (S.GRID_SIZE, S.CELL_MARGIN_VERTICAL, S.CELL_MARGIN_HORIZONTAL, S.NET_SPACING, S.NET_TRACK_SPACING)
+    return {'nr': nr, 'nc': nc, 'cells': cells, 'chans': chans, 'cfg': cfg, 'object_in_two_cells': twice}
+
+
+def placer_tie(ctx, placed):
+    """Model/Placer.v `place_rects` (the subject of C18_placer_no_overlap) evaluated in Coq on the REAL grids against the coordinates the real
+    replaceAsColRow assigned: per cell (row-major) x, y, w, h must agree.  Returns the number of layouts compared."""
+    z = common.zlit
+    items, keep = [], []
+    for k, (r, p) in enumerate(placed):
+        pl = p.get('placer')
+        if not pl or 'error' in pl or pl['object_in_two_cells']: continue
+        vals = [v for row in pl['cells'] for c in row if c for v in c] + [v for ch in pl['chans'] for v in ch] + list(pl['cfg'])
+        if not all(isinstance(v, int) for v in vals):
+            ctx.notes.setdefault('placer_tie_skipped_non_integer', []).append(json.dumps(r)[:80]); continue
+        n = 0; rows = []
+        for row in pl['cells']:
+            cs = []
+            for c in row:
+                if c is None: cs.append('None')
+                else: cs.append('Some (CS %d%%nat KOther None %s %s)' % (n, z(c[0]), z(c[1]))); n += 1
+            rows.append('[' + '; '.join(cs) + ']')
+        term = 'place_rects (PCfg %s) [%s] %d%%nat [%s]' % (' '.join(z(v) for v in pl['cfg']), '; '.join('Chan %s %s' % (z(a), z(b)) for a, b in pl['chans']), pl['nc'], '; '.join(rows))
+        items.append(('p%d' % len(items), term)); keep.append((r, pl))
+        if len(items) >= (60 if ctx.quick else 400): break
+    if not items: return 0
+    out = {}
+    for b in range(0, len(items), 40):
+        out.update(common.coq_eval('C18_placer_%d' % (b // 40), 'From V Require Import Model.Schem Model.Placer.\nFrom Coq Require Import ZArith List. Import ListNotations. Open Scope Z_scope.\n', items[b:b + 40]))
+    for j, (r, pl) in enumerate(keep):
+        model = [tuple(int(v) for v in t) for t in out['p%d' % j]]
+        real = []; n = 0
+        for row in pl['cells']:
+            for c in row:
+                if c is not None: real.append((n, c[2], c[3], c[0], c[1])); n += 1
+        ctx.count(('placer_tie', pl['nr'], pl['nc'], len(real)))
+        if model != real:
+            d = next((i for i, (a, b) in enumerate(zip(model, real)) if a != b), min(len(model), len(real)))
+            ctx.violation({'what': 'Model/Placer.v `place` (hand model of Schematic.replaceAsColRow) and the real placer assign different coordinates (correspondence broken)',
+                           'recipe': r, 'grid': [pl['nr'], pl['nc']], 'first_difference(cell index, model (id,x,y,w,h), real)': [d, model[d] if d < len(model) else None, real[d] if d < len(real) else None]},
+                          found_input=False)
+            return len(keep)
+    ctx.notes['placer_model_layouts_compared'] = len(keep)
+    return len(keep)
 
 
 def validate(tag, cases):
@@ -319,6 +386,11 @@ def run(ctx):
     ctx.cov['programs'] = len(placed)
     ctx.cov['disagreements_checked'] = rejected
     judge_negatives(ctx, placed, diags, negs, ndiags)
+    if not ctx.violations:
+        try:
+            placer_tie(ctx, placed)
+        except Exception as ex:
+            ctx.violation({'what': 'the placer-model tie could not be evaluated: %s: %s' % (type(ex).__name__, str(ex)[-800:])}, found_input=False)
     ctx.cov['painted_pin_markers_checked'] = sum(len(p['lay'].get('marks', [])) for _, p in placed)
     if placed and ctx.cov['painted_pin_markers_checked'] == 0 and not ctx.violations:
         ctx.violation({'what': 'no pin marker was recognised in any symbol\'s draw() output: the independent source of pin positions is gone '
